@@ -17,11 +17,11 @@ PROPS = {
     'C11': {'gens': ['c11'], 'translate': ['G:guards'], 'configs': C(['default', 'int64'])},
     'C13': {'gens': ['c13'], 'configs': C(['default', 'int64'])},
     'C12': {'gens': ['c12'], 'translate': ['G:guards'], 'configs': C(['default', 'int64'])},
-    'C01': {'gens': ['c01'], 'translate': ['G:guards'], 'configs': C(['default', 'int64'])},
-    'C02': {'gens': ['c02'], 'translate': ['G:guards'], 'configs': C(['default', 'int64'])},
+    'C01': {'gens': ['c01', 'c01p'], 'translate': ['G:guards', 'P:ecdsa'], 'configs': C(['default', 'int64'])},
+    'C02': {'gens': ['c02', 'c02p'], 'translate': ['G:guards', 'P:schnorr'], 'configs': C(['default', 'int64'])},
     'C03': {'gens': ['c03'], 'translate': ['G:guards'], 'configs': C(['default', 'int64'])},
     'C04': {'gens': ['c04'], 'translate': ['G:guards'], 'configs': C(['default', 'int64'])},
-    'C05': {'gens': ['c05', 'c05k'], 'translate': ['K:field5x52', 'K:ct', 'K:field10x26', 'K:scalar4x64', 'K:scalar8x32', 'K:ct32', 'K:int128struct', 'F:group', 'F:ellswift'], 'configs': C(['default', 'asm', 'int64', 'int128struct'], ALLCONF + ['o2']),
+    'C05': {'gens': ['c05', 'c05k'], 'translate': ['K:field5x52', 'K:ct', 'K:field10x26', 'K:scalar4x64', 'K:scalar8x32', 'K:ct32', 'K:int128struct', 'F:group', 'F:ellswift', 'F:generator'], 'configs': C(['default', 'asm', 'int64', 'int128struct'], ALLCONF + ['o2']),
             'assumptions': ['x86-64 assembly, safegcd modinv and ecmult internals are tied by correspondence only']},
     'C06': {'gens': ['c06'], 'translate': ['K:ct', 'K:ct32'], 'ct_valgrind': True, 'configs': C(['default', 'int64'], ['default', 'int64', 'verify']),
             'assumptions': ['compiler and CPU behaviour are outside the Lean model; valgrind observes the executed paths of the built binaries only']},
@@ -31,7 +31,7 @@ PROPS = {
             # object with s = 0; production builds return 0 (observation in DESIGN.md 10.5) - the op runs in every other configuration
             'exclude': {'verify': ['adaptor_recover']},
             'assumptions': ['memory safety of the compiled code is observed by ASan/UBSan/LeakSanitizer/valgrind on the generated inputs only']},
-    'C08': {'gens': ['c08'], 'translate': ['G:guards'], 'configs': C(['default', 'int64'])},
+    'C08': {'gens': ['c08', 'c08k'], 'translate': ['G:guards', 'F:group', 'F:generator'], 'configs': C(['default', 'int64'])},
     'C09': {'gens': ['c09'], 'translate': ['G:guards'], 'configs': C(['default', 'int64'])},
     'C10': {'gens': ['c10'], 'translate': ['G:guards'], 'configs': C(['default', 'int64'])},
     'C14': {'gens': ['c14'], 'translate': ['G:guards'], 'configs': C(['default', 'int64'], ['default', 'asm', 'int128struct', 'int64', 'verify']),
